@@ -47,6 +47,7 @@ EXPECTED_MISSES = {
 
 # (id, property, expected rule prefix, edits)
 FIRE: List[Tuple[str, str, str, List[Tuple[str, str, str]]]] = [
+    ("is-set-merged-branches-default-true", "C14", "V7", [(I, "        if isinstance(value, Message):\n            return value._serialized_on_wire or bool(value)\n        if isinstance(value, (list, dict)):\n            return bool(value)\n", "        if isinstance(value, (Message, list, dict)):\n            return bool(value) or getattr(value, \"_serialized_on_wire\", True)\n")]),
     ("comment-escaped-quote-escaped-again", "C03", "P11", [(MD, "                body = lines[-1][:-1]\n                # a quote that the replacement above already escaped (odd number of\n                # backslashes in front of it) must not get a second backslash\n                if (len(body) - len(body.rstrip(\"\\\\\"))) % 2 == 0:\n                    lines[-1] = body + '\\\\\"'\n", "                lines[-1] = lines[-1][:-1] + '\\\\\"'\n")]),
     ("sanitize-name-keyword-test-lowercased", "C19", "I1", [("src/betterproto/casing.py", "    if keyword.iskeyword(value):\n", "    if keyword.iskeyword(value.lower()):\n")]),
     ("reduce-shortcut-for-falsy", "C07", "V11", [(I, "        return (self.__class__.FromString, (bytes(self),))\n", "        if not self and not self._unknown_fields:\n            return (self.__class__, ())\n        return (self.__class__.FromString, (bytes(self),))\n")]),
@@ -177,6 +178,7 @@ CODEC = ["C01", "C02", "C06", "C08", "C09", "C10", "C16", "C17", "C20"]
 
 # (id, properties that must stay at exit 0, edits)  -- behaviour-preserving refactors
 SILENT: List[Tuple[str, List[str], List[Any]]] = [
+    ("is-set-merged-branches-default-false", ["C14", "C06"], [(I, "        if isinstance(value, Message):\n            return value._serialized_on_wire or bool(value)\n        if isinstance(value, (list, dict)):\n            return bool(value)\n", "        if isinstance(value, (Message, list, dict)):\n            return bool(value) or getattr(value, \"_serialized_on_wire\", False)\n")]),
     ("sanitize-name-kwlist-membership", ["C19", "C03"], [("src/betterproto/casing.py", "    if keyword.iskeyword(value):\n        return f\"{value}_\"\n    if not value.isidentifier():\n        return f\"_{value}\"\n    return value\n", "    if not value.isidentifier():\n        return \"_\" + value\n    return value + \"_\" if value in keyword.kwlist else value\n")]),
     ("load-frame-bound-in-own-local", ["C10", "C08", "C17", "C01"], [(I, "        if size == SIZE_DELIMITED:\n            size, _ = load_varint(stream)\n", "        expected = size\n        if size == SIZE_DELIMITED:\n            expected, _ = load_varint(stream)\n"), (I, "        while size is None or read < size:", "        while expected is None or read < expected:"), (I, "            if size is not None and read > size:\n                raise ValueError(\n                    f\"Expected message of size {size}, can only read \"", "            if expected is not None and read > expected:\n                raise ValueError(\n                    f\"Expected message of size {expected}, can only read \""), (I, "        if size is not None and read < size:\n            raise ValueError(\n                f\"Expected message of size {size}, but was only able to \"", "        if expected is not None and read < expected:\n            raise ValueError(\n                f\"Expected message of size {expected}, but was only able to \"")]),
     ("from-timedelta-abs-of-delta-both-negated", ["C15", "C01", "C02"], [(I, "        total_us = delta // _1_microsecond\n        seconds, us = divmod(abs(total_us), 10**6)\n        if total_us < 0:\n            seconds, us = -seconds, -us\n", "        seconds, us = divmod(abs(delta) // _1_microsecond, 10**6)\n        if delta.days < 0:\n            # a negative timedelta is normalised to days < 0, seconds/us >= 0\n            seconds, us = -seconds, -us\n")]),
